@@ -45,7 +45,7 @@ pub struct TxSim {
 
 fn focus_knobs(focus: &str) -> WorldKnobs {
     let mut k = WorldKnobs::new(InspKind::Monitor);
-    if matches!(focus, "C06" | "C07" | "C10" | "C11" | "C25" | "C29") {
+    if matches!(focus, "C06" | "C07" | "C10" | "C11" | "C13" | "C25" | "C29") {
         // OSAKA worlds mix EOF and legacy contracts (frame-level oracles apply to both)
         k.specs.push(SpecId::OSAKA);
         k.specs.push(SpecId::OSAKA);
